@@ -1,5 +1,6 @@
 import Fdo.Drv.Cbor
 import Fdo.Drv.Typed
+import Fdo.Drv.Cose
 import Fdo.Drv.Prim
 /-
 Line-protocol driver: one operation per input line, one reply per output line.
@@ -13,7 +14,8 @@ def dispatch (line : String) : String :=
   | ["flush"] => "flushed"
   | cmd :: args =>
     let r :=
-      if cmd == "cbor.typed" then Drv.Typed.handle cmd args
+      if cmd.startsWith "cose." then Drv.Cose.handle cmd args
+      else if cmd == "cbor.typed" then Drv.Typed.handle cmd args
       else if cmd.startsWith "cbor." then Drv.Cbor.handle cmd args
       else if cmd.startsWith "prim." then Drv.Prim.handle cmd args
       else none
